@@ -132,9 +132,11 @@ class CompoundQuery(qcore.Query):
         if all(q is qcore.NullQuery for q in subqueries):
             return qcore.NullQuery
 
-        # If there's an unfielded Every inside, then this query is Every
-        if any((isinstance(q, Every) and q.fieldname is None)
-               for q in subqueries):
+        # If there's an unfielded Every inside a disjunction, then this query
+        # is Every (in a conjunction the other clauses still restrict it)
+        if (not getattr(self, "intersect_merge", True)
+            and any((isinstance(q, Every) and q.fieldname is None)
+                    for q in subqueries)):
             return Every()
 
         # Merge ranges and Everys
